@@ -384,29 +384,78 @@ class Built:
     pass
 
 
+def param_terms(spec):
+    """positions (equation, term) of the coefficients written as parameters, in the order spec_source names them"""
+    return [(i, k) for i, eq in enumerate(spec["eqs"]) for k, t in enumerate(eq["terms"]) if t[3]]
+
+
+def with_param_values(spec, values):
+    """copy of the spec with the parameter coefficients replaced (one parameter variant of the same model source)"""
+    sp = json.loads(json.dumps(spec))
+    for (i, k), c in zip(param_terms(sp), values):
+        sp["eqs"][i]["terms"][k][2] = float(c)
+    return sp
+
+
+def steady_assignments(spec, steady_path):
+    l, g, ly, gy = steady_path
+    vals = {}
+    for j in range(spec["n"]):
+        vals[xname(j)] = (float(np.exp(l[j])), float(np.exp(g[j]))) if spec["logly"][j] else (float(l[j]), float(g[j]))
+    for r in range(spec["nm"]):
+        vals[yname(r)] = (float(np.exp(ly[r])), float(np.exp(gy[r]))) if spec["mlogly"][r] else (float(ly[r]), float(gy[r]))
+    return vals
+
+
+_FAMILY_CACHE = {}
+
+
+def build_family(spec):
+    """ONE model object carrying all parameter variants of spec["variants"] (alter_num_variants + per-variant assign), solved"""
+    key = json.dumps([spec_source(spec)[0], spec["variants"], spec["linear"]])
+    if key in _FAMILY_CACHE:
+        return _FAMILY_CACHE[key]
+    specs = [with_param_values(spec, vals) for vals in spec["variants"]]
+    src, _ = spec_source(specs[0])
+    m = ir.Simultaneous.from_string(src, linear=spec["linear"])
+    m.alter_num_variants(len(specs))
+    plist = [spec_source(sp)[1] for sp in specs]
+    m.assign(**{name: [pl[name] for pl in plist] for name in plist[0]})
+    if not spec["linear"]:
+        paths = [own_steady_path(sp, beta=sp.get("beta", 0.0)) for sp in specs]
+        if any(x is None for x in paths):
+            raise ValueError("variant without a determined steady path cannot be built as a non-linear model")
+        assigns = [steady_assignments(sp, x) for sp, x in zip(specs, paths)]
+        m.assign(**{name: [a[name] for a in assigns] for name in assigns[0]})
+    m.solve()
+    _FAMILY_CACHE.clear()
+    _FAMILY_CACHE[key] = m
+    return m
+
+
 def build_model(spec) -> Built:
     src, params = spec_source(spec)
     b = Built()
     b.spec, b.source, b.params = spec, src, params
-    m = ir.Simultaneous.from_string(src, linear=spec["linear"])
-    if params:
-        m.assign(**params)
-    st = own_steady(spec)
-    b.steady = st
+    b.steady = own_steady(spec)
     b.steady_path = own_steady_path(spec, beta=spec.get("beta", 0.0))
-    if not spec["linear"]:
-        # the steady state is assigned, not solved for (solve_steady is C05's subject); the equations are linear in the
-        # transformed variables, so any point of the steady path gives the same linearisation
-        if b.steady_path is None:
-            raise ValueError("spec without a determined steady path cannot be built as a non-linear model")
-        l, g, ly, gy = b.steady_path
-        vals = {}
-        for j in range(spec["n"]):
-            vals[xname(j)] = (float(np.exp(l[j])), float(np.exp(g[j]))) if spec["logly"][j] else (float(l[j]), float(g[j]))
-        for r in range(spec["nm"]):
-            vals[yname(r)] = (float(np.exp(ly[r])), float(np.exp(gy[r]))) if spec["mlogly"][r] else (float(ly[r]), float(gy[r]))
-        m.assign(**vals)
-    m.solve()
+    b.m_all = None
+    if spec.get("variants"):
+        # this spec is parameter variant spec["variant"] of a multi-variant model: the whole family is built and solved as one
+        # object, the variant is then extracted (its solution is the one computed inside the multi-variant solve)
+        b.m_all = build_family(spec)
+        m = b.m_all.get_variant(spec["variant"])
+    else:
+        m = ir.Simultaneous.from_string(src, linear=spec["linear"])
+        if params:
+            m.assign(**params)
+        if not spec["linear"]:
+            # the steady state is assigned, not solved for (solve_steady is C05's subject); the equations are linear in the
+            # transformed variables, so any point of the steady path gives the same linearisation
+            if b.steady_path is None:
+                raise ValueError("spec without a determined steady path cannot be built as a non-linear model")
+            m.assign(**steady_assignments(spec, b.steady_path))
+        m.solve()
     b.m = m
     b.name_to_qid = m.create_name_to_qid()
     b.qid_to_name = m.create_qid_to_name()
@@ -670,6 +719,41 @@ def oracle_nonexplosive(ctx: Ctx, b: Built, case, tag) -> bool:
     return True
 
 
+def oracle_multivariant_simulate(ctx: Ctx, b: Built, case, tag) -> bool:
+    """the simulation of the whole multi-variant model, column `variant`, is the simulation of that variant alone (same initial
+    condition, same shocks, determinate model => the same path); the variant alone is judged by the equation oracle"""
+    spec = b.spec
+    v = spec["variant"]
+    db, t0 = case_databox(b, case)
+    span = t0 >> (t0 + case["nper"] - 1)
+    try:
+        out_all = b.m_all.simulate(db, span, method="first_order", deviation=case["deviation"], force_split_frames=case["split"])
+        out_one = b.m.simulate(db, span, method="first_order", deviation=case["deviation"], force_split_frames=case["split"])
+    except Exception as e:
+        ctx.fail("simulate-raises", dict(tag, case=case), repr(e)[:300])
+        return False
+    worst = 0.0
+    scale = 1.0
+    for name in [xname(j) for j in range(spec["n"])] + [yname(r) for r in range(spec["nm"])]:
+        a = np.asarray(out_all[name].get_data(span), dtype=float)
+        a = a.reshape(a.shape[0], -1)
+        a = a[:, min(v, a.shape[1] - 1)]
+        o = np.asarray(out_one[name].get_data(span), dtype=float).ravel()
+        logly = spec["logly"][int(name[1:])] if name.startswith("x") else spec["mlogly"][int(name[1:])]
+        if logly:
+            a, o = np.log(a), np.log(o)
+        if not (np.all(np.isfinite(a)) and np.all(np.isfinite(o))):
+            ctx.fail("simulate-nonfinite", dict(tag, case=case), f"{name}: multi-variant or single-variant simulation contains NaN/inf")
+            return False
+        worst = max(worst, float(np.max(np.abs(a - o))))
+        scale = max(scale, 1.0 + float(np.max(np.abs(o))))
+    ctx.evaluations += 1
+    if worst > TOL_RES * scale:
+        ctx.fail("multi-variant-simulate", dict(tag, case=case), f"variant {v}: simulating all variants together and the variant alone differ by {worst:.3e}")
+        return False
+    return True
+
+
 def oracle_bk(ctx: Ctx, b: Built, verdict, tag) -> bool:
     """reported count of unstable roots == number of forward-looking variables for models the independent eig calls determinate"""
     kind, n_unst, n_unit, nf, mod = verdict
@@ -695,36 +779,79 @@ def oracle_bk(ctx: Ctx, b: Built, verdict, tag) -> bool:
     return ok
 
 
+def acceptable(spec, verdict) -> bool:
+    """determinate by the independent eig, well-conditioned (stable roots <= 0.92, unstable >= 1.08), exactly the intended number of
+    unit roots, steady path determined where it is needed"""
+    if verdict[0] != "determinate":
+        return False
+    mod = verdict[4]
+    want_unit = 0 if spec.get("unit_var") is None else 1
+    if verdict[2] != want_unit:
+        return False
+    stable = [x for x in mod if x < 1 - 1e-3]
+    unstable = [x for x in mod if x > 1 + 1e-3]
+    if (stable and max(stable) > 0.92) or (unstable and min(unstable) < 1.08):
+        return False
+    sp = own_steady_path(spec, beta=spec.get("beta", 0.0))
+    if not spec["linear"] and sp is None:
+        return False
+    if spec["linear"] and spec.get("unit_var") is None and sp is None:
+        return False
+    if spec.get("growth") and not np.any(np.abs(sp[1]) > 1e-3):
+        return False
+    return True
+
+
 def gen_determinate(rng: Rng, ctx: Ctx | None = None, size_hint=None):
-    """rejection-sample a spec the independent eigenvalue computation classifies as determinate and well-conditioned:
-    stable roots <= 0.92, unstable roots >= 1.08, exactly the intended number (0 or 1) of unit roots, steady state defined
-    for models with log-variables.  Fixed number of attempts; returns (spec, verdict) or (None, None)."""
+    """rejection-sample a spec the independent eigenvalue computation classifies as determinate and well-conditioned
+    (see `acceptable`).  Fixed number of attempts; returns (spec, verdict) or (None, None)."""
     for attempt in range(25):
         spec = gen_spec(rng.fork(attempt), size_hint)
         verdict = own_eigen_verdict(spec)
         if ctx is not None:
             ctx.count("generated:" + verdict[0])
-        if verdict[0] != "determinate":
-            continue
-        mod = verdict[4]
-        want_unit = 0 if spec.get("unit_var") is None else 1
-        if verdict[2] != want_unit:
-            continue
-        stable = [x for x in mod if x < 1 - 1e-3]
-        unstable = [x for x in mod if x > 1 + 1e-3]
-        if (stable and max(stable) > 0.92) or (unstable and min(unstable) < 1.08):
-            continue
         if spec.get("growth"):
             spec["beta"] = dy(rng.fork(f"beta{attempt}"), -2, 2, 2)      # free level of the trending direction
-        sp = own_steady_path(spec, beta=spec.get("beta", 0.0))
-        if not spec["linear"] and sp is None:
-            continue
-        if spec["linear"] and spec.get("unit_var") is None and sp is None:
-            continue
-        if spec.get("growth") and not np.any(np.abs(sp[1]) > 1e-3):
+        if not acceptable(spec, verdict):
             continue
         return spec, verdict
     return None, None
+
+
+def gen_variant_family(rng: Rng, spec):
+    """parameter variants of one model: the same source, 2-3 variants whose parameter values differ, every variant accepted by the
+    independent eig.  Returns the list of per-variant specs (each carries the whole family in spec["variants"]) or None."""
+    if spec.get("growth") or spec.get("meas_lead"):
+        return None
+    sp0 = json.loads(json.dumps(spec))
+    if not param_terms(sp0):
+        cands = [(i, k) for i, eq in enumerate(sp0["eqs"]) for k, t in enumerate(eq["terms"])
+                 if not (i == sp0.get("unit_var") and t[0] == i)]
+        if not cands:
+            return None
+        for (i, k) in rng.sample(cands, min(len(cands), 2)):
+            sp0["eqs"][i]["terms"][k][3] = True
+    base = [sp0["eqs"][i]["terms"][k][2] for (i, k) in param_terms(sp0)]
+    nvar = rng.choice([2, 2, 3])
+    values = [base]
+    for w in range(1, nvar):
+        for attempt in range(12):
+            r = rng.fork(f"variant{w}-{attempt}")
+            vals = [c * r.choice([0.5, 0.75, 1.25, 1.5, -0.5, -1.0, 0.25]) for c in base]
+            if vals in values:
+                continue
+            cand = with_param_values(sp0, vals)
+            if acceptable(cand, own_eigen_verdict(cand)):
+                values.append(vals)
+                break
+    if len(values) < 2:
+        return None
+    out = []
+    for v, vals in enumerate(values):
+        sp = with_param_values(sp0, vals)
+        sp["variants"], sp["variant"] = values, v
+        out.append(sp)
+    return out
 
 
 # ---------------------------------------------------------------------------------------
@@ -951,14 +1078,22 @@ def models_for_run(ctx: Ctx, n_models: int, tag="m"):
         if spec is None:
             ctx.count("no-determinate-spec-found")
             continue
-        out.append((i, r, spec, verdict))
+        fam = gen_variant_family(r.fork("family"), spec) if i % 3 == 2 else None
+        if fam:
+            # a multi-variant model: every variant is judged with its own parameter values
+            ctx.count(f"variant-family:size={len(fam)}")
+            for v, sp in enumerate(fam):
+                out.append((f"{i}.v{v}", r.fork(f"v{v}"), sp, own_eigen_verdict(sp)))
+        else:
+            out.append((i, r, spec, verdict))
     return out
 
 
 def describe(spec) -> dict:
     lo, hi = spec_shift_ranges(spec)
     return {"n": spec["n"], "maxlag": -min(lo), "maxlead": max(hi), "log": any(spec["logly"]), "nm": spec["nm"],
-            "unit": spec.get("unit_var") is not None, "ns": spec["ns"], "growth": bool(spec.get("growth"))}
+            "unit": spec.get("unit_var") is not None, "ns": spec["ns"], "growth": bool(spec.get("growth")),
+            "variant": spec.get("variant")}
 
 
 def check_model(ctx: Ctx, i, r: Rng, spec, verdict, lines: dict, n_cases: int):
@@ -983,6 +1118,10 @@ def check_model(ctx: Ctx, i, r: Rng, spec, verdict, lines: dict, n_cases: int):
     ctx.nontriv(("model", d["n"], d["maxlag"], d["maxlead"], d["log"], d["nm"], d["unit"], d["ns"], d["growth"]))
     ctx.extra["programs"] = ctx.extra.get("programs", 0) + 1
     oracle_bk(ctx, b, verdict, tag)
+    if b.m_all is not None:
+        ctx.count("variant-model:" + ("linear" if spec["linear"] else "not-linear"))
+        ctx.nontriv(("variant", spec["variant"], len(spec["variants"]), spec["linear"], d["maxlead"] > 0))
+        oracle_multivariant_simulate(ctx, b, gen_sim_case(r.fork("mvcase"), spec), tag)
     lines["vec"].append((tag, vec_line(b), vec_impl(b)))
     lines["cert"].append((tag, cert_line(b), b))
     lines["sqtri"].append((tag, sqtri_line(b), b))
@@ -1178,7 +1317,7 @@ def replay_corpus(ctx: Ctx):
 
 def run(ctx: Ctx):
     ctx.rule = ("random determinate linear / log-linear models (1-6 variables, lags and leads up to 3, measurement block, parameters, constants, "
-                "at most one unit root) accepted by an independent eig of the harness's own pencil (stable roots <= 0.92, unstable >= 1.08); per model "
+                "at most one unit root; every third model carries 2-3 parameter VARIANTS, each judged with its own values; balanced-growth models not declared linear) accepted by an independent eig of the harness's own pencil (stable roots <= 0.92, unstable >= 1.08); per model "
                 "several simulation inputs (dyadic initial conditions, unanticipated and anticipated shocks at random dates, level/deviation, "
                 "single/split frames). distinct_nontrivial counts distinct (n, maxlag, maxlead, log, measurement, unit root, shocks) model shapes, "
                 "distinct (frames>=2, leads, shock kind) split simulations whose equations hold, and distinct dyadic-override simulation shapes")
